@@ -11,8 +11,8 @@ import numpy as np
 from simdag.gen.expr import Bin, Call, Cmp, Const, IfX, Logic, Not, Pow, Sub, Var
 from simdag.gen.script import PhaseS, Script
 
-UT_TEMPS = ["k", "k2", "y2", "ytmp", "w", "K", "yy"]
-SC_TEMPS = ["s", "r", "q", "c", "S", "tt", "e"]
+UT_TEMPS = ["k", "k2", "y2", "ytmp", "w", "K", "yy", "k_stage_value_for_the_second_half_step_of_y"]
+SC_TEMPS = ["s", "r", "q", "c", "S", "tt", "e", "scratch_scalar_for_the_error_estimate_of_the_step"]
 ARR_TEMPS = ["a", "b", "arr", "vec", "c2"]
 DYADIC = [0.5, 2.0, 1.5, -0.5, 0.25, -1.0, 3.0, -2.0]
 SMALL = [1.0, 2.0, 0.5, 3.0, -1.0, 0.0, 1.5]
@@ -25,6 +25,13 @@ FFUNCS = {
 }
 # right-hand side of the optional second user type "v" (its own component, allocation and release routines)
 FV = ("<func>fv", "${result} = 0.5d0*${v} + ${t}", lambda t, v: 0.5 * v + t)
+
+
+# a user function with two user-type results (both allocated, assigned and released by the generated code)
+FTWO = ("<func>two", ["${r1}{m} = 2*${y}{m} + ${t}", "${r2}{m} = ${y}{m} - 1"], lambda t, y: (2 * y + t, y - 1))
+# long per-step names (the Fortran identifier is the prefixed, length-limited form)
+LONG_UT = "k_stage_value_for_the_second_half_step_of_y"
+LONG_SC = "scratch_scalar_for_the_error_estimate_of_the_step"
 
 
 class FScript(Script):
@@ -224,7 +231,8 @@ class FortranGen:
                      1.4,                    # 14 array -> array built-ins (abs, transpose, matmul)
                      2.0 if "<state>v" in self.types else 0,   # 15 second user type "v"
                      1.2 if "<state>r" in self.types else 0,   # 16 two conditional expressions, same condition
-                     1.0 if "<state>r" in self.types and depth >= 2 else 0]   # 17 array overwritten with other length
+                     1.0 if "<state>r" in self.types and depth >= 2 else 0,   # 17 array overwritten with other length
+                     0.9]                    # 18 user function with two user-type results
                 k = t.weighted(w, "opkind")
                 op = self.gen_op(k, D, depth)
                 if op is None:
@@ -496,6 +504,20 @@ class FortranGen:
                     kws.reverse()
                 return ("call", (tgt,), Call("<builtin>matmul", [Var(a), Var(a)], kws), self.mode())
             return ("call", (tgt,), Call("<builtin>matmul", [Var(a), Var(a), Const(c), Const(r)]), self.mode())
+        if k == 18:
+            t1 = self.new_name(UT_TEMPS, "ut", D)
+            t2 = self.new_name([n for n in UT_TEMPS if n != t1], "ut", D)
+            if t1 is None or t2 is None or t1 == t2:
+                return None
+            srcs = [u for u in uts if u not in (t1, t2)] or ["<state>y"]
+            self.used_funcs.add(FTWO[0])
+            D.add(t1)
+            D.add(t2)
+            out = [("call", (t1, t2), Call(FTWO[0], [Var("<t>"), Var(self.pick(srcs, "arg"))]), self.mode())]
+            if t.chance(0.6, "usetwo"):
+                out.append(("assign", "<state>y", None,
+                            Bin("+", Var("<state>y"), Bin("*", Const(0.25), Bin("-", Var(t1), Var(t2)))), [], self.mode()))
+            return out
         if k == 17:
             free = [x for x in ARR_TEMPS if x not in self.types or x not in D]
             if len(free) < 2:
@@ -812,6 +834,16 @@ def make_registry(sc):
             freg = register_ode_rhs(freg, "v", identifier=fn, input_type_ids=("v",), input_names=("v",))
             freg = freg.register_codegen(fn, "fortran", f.CallCode("\n    " + FV[1] + "\n    "))
             twins[fn] = FV[2]
+            continue
+        if fn == FTWO[0]:
+            from dagrt.data import UserType
+            from dagrt.function_registry import register_function
+            freg = register_function(freg, fn, ("t", "y"), result_names=("r1", "r2"),
+                                     result_kinds=(UserType("y"), UserType("y")))
+            members = ["%a", "%b"] if getattr(sc, "struct", None) else [""]
+            text = "\n".join("    " + ln.replace("{m}", m_) for m_ in members for ln in FTWO[1])
+            freg = freg.register_codegen(fn, "fortran", f.CallCode("\n" + text + "\n    "))
+            twins[fn] = FTWO[2]
             continue
         n_in, body, twin = FFUNCS[fn]
         names = ("y", "z")[:n_in]
